@@ -1,6 +1,8 @@
 //! One module per claimed property: workload generator + oracle.
 pub mod c13;
+pub mod c16;
 pub mod c17;
+pub mod c18;
 pub mod common;
 pub mod sc;
 
@@ -9,7 +11,9 @@ use crate::engine::Property;
 pub fn by_id(id: &str) -> Option<&'static dyn Property> {
     match id {
         "C13" => Some(&c13::C13),
+        "C16" => Some(&c16::C16),
         "C17" => Some(&c17::C17),
+        "C18" => Some(&c18::C18),
         "C01" => Some(&sc::C01),
         "C02" => Some(&sc::C02),
         "C03" => Some(&sc::C03),
